@@ -9,6 +9,8 @@ import (
 	"go/token"
 	"go/types"
 	"math/big"
+	"os"
+	"path/filepath"
 	"strings"
 )
 
@@ -32,20 +34,20 @@ type retRec struct {
 }
 
 type Exec struct {
-	w        *World
-	fnName   string // name of the unit under verification
-	decl     *Decl
-	tags     []string
-	frames   []*frame
-	obls     []*Obligation
-	side     []*Obligation // overflow / float-exactness side conditions (batched)
-	kindN    map[string]int
-	specMode int
-	entry    *State // state at function entry (for old())
-	inputs   []InputVar
-	heapN    int
-	panicsIf *Term // condition under which the function may panic (panics_iff)
-	depth    int
+	w          *World
+	fnName     string // name of the unit under verification
+	decl       *Decl
+	tags       []string
+	frames     []*frame
+	obls       []*Obligation
+	side       []*Obligation // overflow / float-exactness side conditions (batched)
+	kindN      map[string]int
+	specMode   int
+	entry      *State // state at function entry (for old())
+	inputs     []InputVar
+	heapN      int
+	panicsIf   *Term // condition under which the function may panic (panics_iff)
+	depth      int
 	summarised map[string]bool
 	external   map[string]bool
 	assumed    []string
@@ -56,6 +58,7 @@ type Exec struct {
 	ghosts     map[string]Value
 	roundCache map[int]*Term
 	roundFacts map[int][]*Term
+	feasChecks int
 }
 
 func newExec(w *World, name string, d *Decl) *Exec {
@@ -81,7 +84,7 @@ func (x *Exec) oblige(kind string, st *State, goal *Term, at ast.Node, clause st
 	if x.onlyPost && !strings.HasPrefix(kind, "post") && kind != "lemma-pre" {
 		return
 	}
-	if x.panicsIf != nil &&  !strings.HasPrefix(kind, "post") && kind != "panics_iff.ret" && kind != "assert" && !strings.HasPrefix(kind, "inv") {
+	if x.panicsIf != nil && !strings.HasPrefix(kind, "post") && kind != "panics_iff.ret" && kind != "assert" && !strings.HasPrefix(kind, "inv") {
 		goal = mkOr(goal, x.panicsIf)
 	}
 	x.kindN[kind]++
@@ -819,7 +822,107 @@ func (x *Exec) loopClauses(ord int, kind string) []*Clause {
 	return cs
 }
 
+// forEachList recognises `for i := L.Front(); i != nil; i = i.Next() { body }`.
+func (x *Exec) forEachList(s *ast.ForStmt) (*ast.Ident, ast.Expr, bool) {
+	as, ok := s.Init.(*ast.AssignStmt)
+	if !ok || len(as.Lhs) != 1 || len(as.Rhs) != 1 {
+		return nil, nil, false
+	}
+	id, ok := as.Lhs[0].(*ast.Ident)
+	if !ok {
+		return nil, nil, false
+	}
+	call, ok := as.Rhs[0].(*ast.CallExpr)
+	if !ok {
+		return nil, nil, false
+	}
+	se, ok := call.Fun.(*ast.SelectorExpr)
+	if !ok || se.Sel.Name != "Front" || len(call.Args) != 0 {
+		return nil, nil, false
+	}
+	cond, ok := s.Cond.(*ast.BinaryExpr)
+	if !ok || cond.Op != token.NEQ {
+		return nil, nil, false
+	}
+	if ci, ok := cond.X.(*ast.Ident); !ok || ci.Name != id.Name {
+		return nil, nil, false
+	}
+	if ni, ok := cond.Y.(*ast.Ident); !ok || ni.Name != "nil" {
+		return nil, nil, false
+	}
+	ps, ok := s.Post.(*ast.AssignStmt)
+	if !ok || len(ps.Lhs) != 1 || len(ps.Rhs) != 1 {
+		return nil, nil, false
+	}
+	if pi, ok := ps.Lhs[0].(*ast.Ident); !ok || pi.Name != id.Name {
+		return nil, nil, false
+	}
+	pc, ok := ps.Rhs[0].(*ast.CallExpr)
+	if !ok {
+		return nil, nil, false
+	}
+	pse, ok := pc.Fun.(*ast.SelectorExpr)
+	if !ok || pse.Sel.Name != "Next" {
+		return nil, nil, false
+	}
+	if pi, ok := pse.X.(*ast.Ident); !ok || pi.Name != id.Name {
+		return nil, nil, false
+	}
+	return id, se.X, true
+}
+
+func (x *Exec) execForEachList(s *ast.ForStmt, id *ast.Ident, lexpr ast.Expr, st *State) *State {
+	lval := x.eval(lexpr, st)
+	l, ok := lval.(*ListV)
+	if !ok {
+		unsup("for-each over %T at %s", lval, x.pos(s))
+	}
+	x.requireListNonNil(l, st, s)
+	obj, _ := x.info().Defs[id].(*types.Var)
+	if obj == nil {
+		unsup("for-each cursor is not a new variable")
+	}
+	// the body must not modify the cursor
+	fr := x.top()
+	var exit *State
+	for k := range l.Elems {
+		if st == nil || st.dead() {
+			break
+		}
+		c := l.cond(k)
+		if c.isFalse() {
+			continue
+		}
+		var skip *State
+		if !c.isTrue() {
+			skip = st.clone()
+			skip.assume(mkNot(c))
+			st.assume(c)
+		}
+		full := &ListV{Elems: l.Elems}
+		st.vars[obj] = &ElemV{L: full, Idx: k}
+		lc := &loopCtx{}
+		fr.loops = append(fr.loops, lc)
+		body := x.execBlock(s.Body.List, st)
+		fr.loops = fr.loops[:len(fr.loops)-1]
+		for _, b := range lc.breaks {
+			exit = mergeStates(exit, b)
+		}
+		for _, cst := range lc.conts {
+			body = mergeStates(body, cst)
+		}
+		st = mergeStates(body, skip)
+	}
+	if st != nil {
+		st.vars[obj] = &ElemV{L: &ListV{}, Idx: 0}
+	}
+	return mergeStates(exit, st)
+}
+
 func (x *Exec) execFor(s *ast.ForStmt, st *State) *State {
+	if id, lexpr, ok := x.forEachList(s); ok && len(x.loopClauses(x.loopOrdinal(s), "invariant")) == 0 {
+		return x.execForEachList(s, id, lexpr, st)
+	}
 	if s.Init != nil {
 		st = x.execStmt(s.Init, st)
 		if st == nil {
@@ -856,6 +959,11 @@ func (x *Exec) execFor(s *ast.ForStmt, st *State) *State {
 			e.assume(mkNot(c))
 			exit = mergeStates(exit, e)
 			st.assume(c)
+			if iter >= 1 && !x.feasible(st, c, iter) {
+				break // another iteration is impossible: unrolling is complete
+			}
+		} else if s.Cond == nil && iter >= 1 && !x.feasible(st, nil, iter) {
+			break
 		}
 		lc := &loopCtx{}
 		fr.loops = append(fr.loops, lc)
@@ -879,6 +987,72 @@ func (x *Exec) execFor(s *ast.ForStmt, st *State) *State {
 		}
 	}
 	return exit
+}
+
+// feasible asks a solver whether the path condition is satisfiable (unknown counts as feasible).
+// Used only to stop unrolling loops whose bound is symbolic but small; an unsat answer is a proof that
+// no further iteration exists, so the unrolling is complete, not bounded.
+func (x *Exec) feasible(st *State, cond *Term, iter int) bool {
+	if st.dead() {
+		return false
+	}
+	x.feasChecks++
+	dir, err := os.MkdirTemp("", "govc-feas-")
+	if err != nil {
+		return true
+	}
+	defer os.RemoveAll(dir)
+	if cond != nil {
+		// cheap attempt first: only the hypotheses that share a symbol with the loop condition
+		// (a subset of the hypotheses is sound for showing infeasibility)
+		syms := symbolsOf(cond)
+		var sub []*Term
+		for _, h := range st.pc {
+			for sname := range symbolsOf(h) {
+				if syms[sname] {
+					sub = append(sub, h)
+					break
+				}
+			}
+		}
+		f := filepath.Join(dir, "q0.smt2")
+		os.WriteFile(f, []byte(x.w.smtText(sub, tFalse, nil, nil)), 0644)
+		if r := raceSolvers(f, 2); r.status == "unsat" {
+			return false
+		} else if r.status == "sat" && len(sub) == len(st.pc) {
+			return true
+		}
+		// the full query is expensive on long paths; "feasible" is the safe answer (more unrolling),
+		// so it is asked only now and then and always beyond 32 iterations
+		if iter < 32 && iter%8 != 0 {
+			return true
+		}
+	}
+	txt := x.w.smtText(st.pc, tFalse, nil, nil)
+	f := filepath.Join(dir, "q.smt2")
+	os.WriteFile(f, []byte(txt), 0644)
+	r := raceSolvers(f, 5)
+	return r.status != "unsat"
+}
+
+func symbolsOf(t *Term) map[string]bool {
+	m := map[string]bool{}
+	seen := map[int]bool{}
+	var rec func(t *Term)
+	rec = func(t *Term) {
+		if seen[t.id] {
+			return
+		}
+		seen[t.id] = true
+		if t.Op == "var" {
+			m[t.Name] = true
+		}
+		for _, a := range t.Args {
+			rec(a)
+		}
+	}
+	rec(t)
+	return m
 }
 
 // assigned variables of a statement list (syntactic), restricted to variables declared outside
@@ -1848,8 +2022,20 @@ func (x *Exec) mapLookup(e *ast.IndexExpr, st *State) (Value, *Term) {
 	if !ok {
 		unsup("map key of type %T", k)
 	}
-	if ks.Opaque || ks.Fmt != nil {
+	if ks.Opaque {
 		unsup("map lookup with unmodelled string key (%s)", ks.Tag)
+	}
+	if ks.Fmt != nil {
+		// formatted key (e.g. Sprintf("%d-%d", m, d)): every literal key of the constant map is matched against the pattern
+		res := zero
+		present := tFalse
+		for j := len(m.Keys) - 1; j >= 0; j-- {
+			if c, ok := matchPattern(m.Keys[j], ks.Fmt); ok && !c.isFalse() {
+				res = mergeValues(c, m.Vals[j], res)
+				present = mkOr(present, c)
+			}
+		}
+		return res, present
 	}
 	pos := map[string]int{}
 	for i, kk := range m.Keys {
